@@ -1151,6 +1151,26 @@ def slice_formats(ctx, sink, only=None):
         return d, args, r, op
 
     outs = pmap(exec_one, jobs)
+    # every report that went to standard output on a valid input, once more with a standard output that accepts nothing
+    # (after C20-r7m3, generalising the `mpq list` runs of slice B): exit 0 says the reader got the report
+    full_jobs = [(f, k, run) for (f, k, run), (d, args, r, op) in zip(jobs, outs) if f["class"] == "valid" and r["rc"] == 0 and len(r["out"].strip()) > 0]
+
+    def exec_full(job):
+        f, k, run = job
+        d = ctx.newdir(f"{run['family']}-{run['sub']}-full")
+        outp = os.path.join(d, "out")
+        args = [a.replace("{in}", f["file"]).replace("{out}", outp) for a in run["args"]]
+        r = ctx.run_cli(args, stdout_to="/dev/full")
+        shutil.rmtree(d, ignore_errors=True)
+        return args, r
+
+    for (f, k, run), (args, r) in zip(full_jobs, pmap(exec_full, full_jobs)):
+        viols = []
+        if r["rc"] == 0:
+            viols.append(("exit0-but-failed", f"`{run['family']} {run['sub']}` ({run['opt']}) exited 0 although nothing it printed could be written (standard output = /dev/full)",
+                          {"cmd": short_cmd(args, ctx.scratch) + " > /dev/full", "stderr": r["err"][-300:]}))
+        res.add_counter("reports_into_a_full_device", 1)
+        sink.record(run["family"], run["sub"], "valid-stdout-full", run["opt"], r, viols, replay={"slice": "C", "file": f["i"], "run": k, "cmd": short_cmd(args, ctx.scratch) + " > /dev/full"})
     # converter / exporter outputs of exit-0 runs: do they parse again with the library?
     vlist = []
     for n, ((f, k, run), (d, args, r, op)) in enumerate(zip(jobs, outs)):
